@@ -1,7 +1,7 @@
 --------------------------- MODULE Gen_ContentOps ---------------------------
 (* Case tables for the harness from the bounded space of MC_ContentOps:      *)
 (*   ops      [kind, ops, norm]: operator sequences for the real writer and  *)
-(*            what the real scanner must read back                           *)
+(*            what the real scanner must read back (apart from comments)     *)
 (*   img      [kind, ops, norm, ambiguous]: inline images over the data      *)
 (*            alphabet, alone and between two operators                      *)
 (*   builder  [kind, pre2, calls, errat, canclose, closing]: Builder call    *)
@@ -23,7 +23,7 @@ OpsJ(os) == [i \in 1..Len(os) |-> OpJ(os[i])]
 \* (LET: TLC evaluates a LET definition once, a global definition at every use)
 OpsOf(f) == [i \in 1..Len(f) |-> OpOf(f[i])]
 OpsCases == LET q == SetToSeq(UNION {[1..n -> OpKinds] : n \in 1..MaxOps}) IN
-  [i \in 1..Len(q) |-> LET os == OpsOf(q[i]) IN [kind |-> "ops", ops |-> OpsJ(os), norm |-> OpsJ(NormOps(os))]]
+  [i \in 1..Len(q) |-> LET os == OpsOf(q[i]) IN [kind |-> "ops", ops |-> OpsJ(os), norm |-> OpsJ(Meaning(os))]]
 
 ImgOne(d, between) ==
   LET os == IF between THEN <<OpOf("q"), ImageOp(d), OpOf("unk")>> ELSE <<ImageOp(d)>>
